@@ -274,6 +274,23 @@ pub fn extra_pool() -> Vec<File> {
         out.push(File { lets: vec![], rules: vec![rule("u", vec![vec![named("s")]]), sk.clone(), rule("s", vec![vec![l2.clone()]]), rule("t", vec![vec![named("s").with_not(true)]])], default: vec![] });
         out.push(File { lets: vec![], rules: vec![sk.clone(), rule("u", vec![vec![named("s")]]), rule("s", vec![vec![l2.clone()]])], default: vec![] });
     }
+    // memoised variables: `some` / plain query variables at file, rule and block scope, referenced once and several times
+    // (a repeated clause or a permuted rule is the second reader of the memo)
+    for some in [true, false] {
+        for q in [vec![key("a"), Part::All, key("b")], vec![key("a"), Part::All], vec![key("a")], vec![key("a"), Part::Filter(vec![vec![un(vec![key("b")], UnOp::Exists, false)]])]] {
+            let lets = vec![Let { name: "sv".into(), val: Arg::Q(some, q.clone()) }];
+            let sv = || vec![Part::Var("sv".into())];
+            let leaves = [bin(sv(), BinOp::Eq, false, i(1)), un(sv(), UnOp::Exists, false), un(sv(), UnOp::Empty, true), un(sv(), UnOp::IsInt, false), bin(sv(), BinOp::In, false, l(vec![i(1), i(2)]))];
+            for (k, c) in leaves.iter().enumerate() {
+                out.push(File { lets: lets.clone(), rules: vec![rule("r0", vec![vec![c.clone()]])], default: vec![] });
+                out.push(File { lets: lets.clone(), rules: vec![rule("r0", vec![vec![c.clone()]]), rule("r1", vec![vec![leaves[(k + 1) % leaves.len()].clone()]])], default: vec![] });
+                let mut r = rule("r0", vec![vec![c.clone()], vec![lp[0].clone(), leaves[(k + 2) % leaves.len()].clone()]]);
+                r.lets = lets.clone();
+                out.push(file1(r));
+            }
+            out.push(file1(rule("r0", vec![vec![Clause::Block { some: false, q: vec![Part::This], not_empty: false, lets: lets.clone(), body: vec![vec![leaves[0].clone()], vec![leaves[1].clone()]] }]])));
+        }
+    }
     out
 }
 #[allow(non_snake_case)]
